@@ -3,7 +3,7 @@
 # Some changes break a property through a function that another property's check owns: those are also run against that check.
 V=$(dirname "$(dirname "$(realpath "$0")")")
 cd $V
-declare -A ALSO=( [C02_m3]=C11 [C05_m2]=C02 [C01_m2]=C02 [C04_m3]=C18 [C20_m2]=C08 )
+declare -A ALSO=( [C02_m3]=C11 [C05_m2]=C02 [C01_m2]=C02 [C04_m3]=C18 [C20_m2]=C08 [C05_m5]=C02 [C11_m6]=C02 )
 one() { s=$1; prop=$2
   out=$(TAILN=60 tools/run_seed.sh $s $prop 2>&1); rc=$?
   nv=$(echo "$out" | grep -c "^VIOLATION"); nr=$(echo "$out" | grep "^VIOLATION" | grep -vc "no-failing-input-found")
@@ -15,6 +15,8 @@ one() { s=$1; prop=$2
 ONLY=" $* "
 for d in seeded/*/; do s=$(basename $d); [ -f $d/patch.diff ] || continue; prop=${s%%_*}
   [ $# -gt 0 ] && [[ "$ONLY" != *" $prop "* ]] && continue
+  # SEED_ROUNDS="m5 m6" restricts the sweep to those rounds of seeds
+  [ -n "$SEED_ROUNDS" ] && [[ " $SEED_ROUNDS " != *" ${s##*_} "* ]] && continue
   one $s $prop
   [ -n "${ALSO[$s]}" ] && one $s ${ALSO[$s]}
 done
